@@ -49,7 +49,8 @@ Record Good (F : facts) : Prop := mkGood {
   g_order : f_ifexp_order F = [CBody; CTest; COrelse];
   g_lib : forallb is_lib (f_lib_parents F) = true;
   g_attr : forallb attr_ok (f_attr_consts F) = true;
-  g_rename : f_rename F = RenSimultaneous
+  g_rename : f_rename F = RenSimultaneous;
+  g_body : f_body F = BodyAllLast
 }.
 
 Lemma order_eqb_eq : forall a b, order_eqb a b = true -> a = b.
@@ -68,6 +69,7 @@ Proof.
   destruct (f_call_fallback F) eqn:Ef; try discriminate.
   apply andb_prop in H. destruct H as [Ha Hk].
   destruct (f_rename F) eqn:Er; try discriminate.
+  destruct (f_body F) eqn:Eb; try discriminate.
   constructor; auto using order_eqb_eq.
 Qed.
 
@@ -166,20 +168,27 @@ Section Calls.
     destruct k; try discriminate H; (split; [reflexivity|]); unfold apply_kind; rewrite H; reflexivity.
   Qed.
 
-  Lemma unary_node : forall name k a va v m,
+  Lemma libs_all : forall (f : pylib -> bool) lib, forallb f all_libs = true -> f lib = true.
+  Proof.
+    intros f lib H. unfold all_libs in H. cbn [forallb] in H.
+    destruct lib; destruct (f LBare), (f LMath), (f LNumpy); try discriminate; reflexivity.
+  Qed.
+
+  Lemma unary_node : forall lib name k a va v m,
     In (name, k) (f_unary F) ->
     eval_ml a = Some va ->
-    call_sem ufn name [va] = Some v ->
+    call_sem ufn lib name [va] = Some v ->
     match lookup_kind k (f_unary_qual F) with
     | Some z => Ok (MApp k (MCons (MInt z) (MCons a MNil)))
     | None => Ok (MApp k (MCons a MNil))
     end = Ok m ->
     eval_ml m = Some v.
   Proof.
-    intros name k a va v m Hin Ha Hv Hm.
+    intros lib name k a va v m Hin Ha Hv Hm.
     pose proof (forallb_in _ _ _ _ (g_unary F G) Hin) as Hok. unfold unary_ok in Hok. cbn [fst snd] in Hok.
+    apply (libs_all _ lib) in Hok. cbn beta in Hok.
     unfold call_sem in Hv. cbn [List.length] in Hv.
-    destruct (py_fn name 1) as [r|] eqn:Epy; [|discriminate].
+    destruct (py_fn lib name 1) as [r|] eqn:Epy; [|discriminate].
     pose proof (fn_entry _ _ r Hok eq_refl) as Hml. unfold unary_ml_fn in Hml.
     destruct (lookup_kind k (f_unary_qual F)) as [z|] eqn:Eq.
     - destruct k; try discriminate Hml.
@@ -193,41 +202,42 @@ Section Calls.
       rewrite (eval_strict ufn rho k _ [va] Hs (eval_mls1 ufn rho a va Ha)). now rewrite Happ.
   Qed.
 
-  Lemma binary_node : forall name k a b va vb v,
+  Lemma binary_node : forall lib name k a b va vb v,
     In (name, k) (f_binary F) ->
     eval_ml a = Some va -> eval_ml b = Some vb ->
-    call_sem ufn name [va; vb] = Some v ->
+    call_sem ufn lib name [va; vb] = Some v ->
     eval_ml (MApp k (MCons a (MCons b MNil))) = Some v.
   Proof.
-    intros name k a b va vb v Hin Ha Hb Hv.
+    intros lib name k a b va vb v Hin Ha Hb Hv.
     pose proof (forallb_in _ _ _ _ (g_binary F G) Hin) as Hok. unfold binary_ok in Hok. cbn [fst snd] in Hok.
+    apply (libs_all _ lib) in Hok. cbn beta in Hok.
     unfold call_sem in Hv. cbn [List.length] in Hv.
-    destruct (py_fn name 2) as [r|] eqn:Epy; [|discriminate].
+    destruct (py_fn lib name 2) as [r|] eqn:Epy; [|discriminate].
     pose proof (fn_entry _ _ r Hok eq_refl) as Hml.
     destruct (kind_fn_apply k [va; vb] r Hml) as [Hs Happ].
     rewrite (eval_strict ufn rho k _ [va; vb] Hs (eval_mls2 ufn rho a b va vb Ha Hb)). now rewrite Happ.
   Qed.
 
-  Lemma py_fn_max : forall n, n <> 0%nat -> py_fn "max" n = Some RMax.
-  Proof. intros [|[|[|n]]] H; [congruence| | |]; reflexivity. Qed.
-  Lemma py_fn_min : forall n, n <> 0%nat -> py_fn "min" n = Some RMin.
-  Proof. intros [|[|[|n]]] H; [congruence| | |]; reflexivity. Qed.
+  Lemma py_fn_max : forall lib n, n <> 0%nat -> py_fn lib "max" n = Some RMax.
+  Proof. intros lib [|[|[|n]]] H; [congruence| | |]; reflexivity. Qed.
+  Lemma py_fn_min : forall lib n, n <> 0%nat -> py_fn lib "min" n = Some RMin.
+  Proof. intros lib [|[|[|n]]] H; [congruence| | |]; reflexivity. Qed.
 
-  Lemma nary_node : forall name k ms vs v,
+  Lemma nary_node : forall lib name k ms vs v,
     In (name, k) (f_nary F) ->
     eval_mls ms = Some vs -> List.length vs <> 0%nat ->
-    call_sem ufn name vs = Some v ->
+    call_sem ufn lib name vs = Some v ->
     eval_ml (MApp k ms) = Some v.
   Proof.
-    intros name k ms vs v Hin Hms Hn Hv.
+    intros lib name k ms vs v Hin Hms Hn Hv.
     pose proof (forallb_in _ _ _ _ (g_nary F G) Hin) as Hok. unfold nary_ok in Hok. cbn [fst snd] in Hok.
     unfold call_sem in Hv.
     apply orb_prop in Hok. destruct Hok as [Hok|Hok]; apply andb_prop in Hok; destruct Hok as [Hname Hk];
       apply String.eqb_eq in Hname; apply mkind_eq in Hk; subst name k.
-    - rewrite (py_fn_max _ Hn) in Hv.
+    - rewrite (py_fn_max lib _ Hn) in Hv.
       rewrite (eval_strict ufn rho K_FUNCTION_MAX ms vs eq_refl Hms). unfold apply_kind.
       destruct vs as [|x r]; [now elim Hn|]. exact Hv.
-    - rewrite (py_fn_min _ Hn) in Hv.
+    - rewrite (py_fn_min lib _ Hn) in Hv.
       rewrite (eval_strict ufn rho K_FUNCTION_MIN ms vs eq_refl Hms). unfold apply_kind.
       destruct vs as [|x r]; [now elim Hn|]. exact Hv.
   Qed.
@@ -278,21 +288,21 @@ Section Sound.
     conv_list F (ECons e r) = bind (conv F e) (fun e' => bind (conv_list F r) (fun r' => Ok (MCons e' r'))).
   Proof. reflexivity. Qed.
 
-  Lemma call_known_sound : forall name es vs m v,
+  Lemma call_known_sound : forall lib name es vs m v,
     (forall ms, conv_list F es = Ok ms -> eval_mls ms = Some vs) -> List.length vs = elen es ->
     call_known F name (elen es)
       (match es with ECons a _ => Some (conv F a) | ENil => None end)
       (match es with ECons _ (ECons b _) => Some (conv F b) | _ => None end)
       (conv_list F es) = Ok m ->
-    call_sem ufn name vs = Some v ->
+    call_sem ufn lib name vs = Some v ->
     eval_ml m = Some v.
   Proof.
-    intros name es vs m v Hall Hlen Hk Hv.
+    intros lib name es vs m v Hall Hlen Hk Hv.
     assert (Hnary : forall k3, In (name, k3) (f_nary F) -> Nat.eqb (elen es) 0 = false ->
                     bind (conv_list F es) (fun ms => Ok (MApp k3 ms)) = Ok m -> eval_ml m = Some v).
     { intros k3 Hin N0 Hb. destruct (conv_list F es) as [ms|] eqn:Hc; [|discriminate].
       cbn [bind] in Hb. inversion Hb. subst m. apply Nat.eqb_neq in N0.
-      eapply (nary_node F G ufn rho name k3 ms vs v); eauto. congruence. }
+      eapply (nary_node F G ufn rho lib name k3 ms vs v); eauto. congruence. }
     assert (Hbin : forall k2, In (name, k2) (f_binary F) -> Nat.eqb (elen es) 2 = true ->
                    match (match es with ECons a _ => Some (conv F a) | ENil => None end) with
                    | None => Err ErrIndex
@@ -309,7 +319,7 @@ Section Sound.
       { rewrite conv_list_eq, Ha. cbn [bind]. rewrite conv_list_eq, Hb'. reflexivity. }
       destruct (eval_mls_cons _ _ _ (Hall _ Hc)) as [va [vr [Hva [Hvr Hvs]]]].
       destruct (eval_mls_cons _ _ _ Hvr) as [vb [vr' [Hvb [Hvr' Hvs']]]]. cbn in Hvr'. inversion Hvr'. subst vr' vr vs.
-      eapply (binary_node F G ufn rho name k2 a' b' va vb v); eauto. }
+      eapply (binary_node F G ufn rho lib name k2 a' b' va vb v); eauto. }
     unfold call_known, call_tables, call_tables2, call_tablesN, call_fallback_node in Hk.
     rewrite (g_arity F G), (g_fallback F G) in Hk. cbn [negb orb] in Hk.
     destruct (lookup_s name (f_unary F)) as [k1|] eqn:E1;
@@ -320,7 +330,7 @@ Section Sound.
       assert (Hc : conv_list F (ECons a ENil) = Ok (MCons a' MNil)).
       { rewrite conv_list_eq, Ha. reflexivity. }
       destruct (eval_mls_cons _ _ _ (Hall _ Hc)) as [va [vr [Hva [Hvr Hvs]]]]. cbn in Hvr. inversion Hvr. subst vr vs.
-      eapply (unary_node F G ufn rho name k1 a' va v m); eauto using lookup_s_in.
+      eapply (unary_node F G ufn rho lib name k1 a' va v m); eauto using lookup_s_in.
     - destruct (lookup_s name (f_binary F)) as [k2|] eqn:E2;
         [destruct (Nat.eqb (elen es) 2) eqn:N2|].
       + eapply Hbin; eauto using lookup_s_in.
@@ -510,18 +520,18 @@ Section Sound.
       destruct (truthy vt); [now apply IHb|now apply IHo].
     - (* ECallName *) intros f args IH kw m v Hc Hp.
       rewrite conv_callname in Hc. change (SbmlMath.eval_py ufn rho (ECallName f args kw)) with
-        (if kw then None else match eval_list args with Some vs => call_sem ufn f vs | None => None end) in Hp.
+        (if kw then None else match eval_list args with Some vs => call_sem ufn LBare f vs | None => None end) in Hp.
       destruct kw; [discriminate|]. cbn [andb] in Hc.
       destruct (eval_list args) as [vs|] eqn:El; [|discriminate].
-      eapply (call_known_sound f args vs m v); eauto using eval_list_len.
+      eapply (call_known_sound LBare f args vs m v); eauto using eval_list_len.
     - (* ECallAttr *) intros p a args IH kw m v Hc Hp.
       rewrite conv_callattr in Hc. change (SbmlMath.eval_py ufn rho (ECallAttr p a args kw)) with
-        (if kw then None else if is_lib p then match eval_list args with Some vs => call_sem ufn a vs | None => None end else None) in Hp.
+        (if kw then None else if is_lib p then match eval_list args with Some vs => call_sem ufn (lib_of p) a vs | None => None end else None) in Hp.
       destruct kw; [discriminate|]. cbn [andb] in Hc.
       destruct (mem_s p (f_lib_parents F)) eqn:Ep.
       + rewrite (is_lib_parent _ Ep) in Hp.
         destruct (eval_list args) as [vs|] eqn:El; [|discriminate].
-        eapply (call_known_sound a args vs m v); eauto using eval_list_len.
+        eapply (call_known_sound (lib_of p) a args vs m v); eauto using eval_list_len.
       + unfold call_fallback_node in Hc. rewrite (g_fallback F G) in Hc. discriminate.
     - (* ECallOther *) intros args IH m v Hc. discriminate Hc.
     - (* EAttr *) intros p a m v Hc Hp. rewrite conv_attr in Hc.
@@ -569,11 +579,11 @@ End Sound.
 (* ------------------------------------------------------------------------------------- *)
 (** * parameters renamed to model names; function bodies *)
 Lemma eval_py_callname : forall ufn rho f args kw, eval_py ufn rho (ECallName f args kw) =
-  if kw then None else match eval_list ufn rho args with Some vs => call_sem ufn f vs | None => None end.
+  if kw then None else match eval_list ufn rho args with Some vs => call_sem ufn LBare f vs | None => None end.
 Proof. reflexivity. Qed.
 Lemma eval_py_callattr : forall ufn rho p a args kw, eval_py ufn rho (ECallAttr p a args kw) =
   if kw then None else
-  if is_lib p then match eval_list ufn rho args with Some vs => call_sem ufn a vs | None => None end else None.
+  if is_lib p then match eval_list ufn rho args with Some vs => call_sem ufn (lib_of p) a vs | None => None end else None.
 Proof. reflexivity. Qed.
 
 Section Rename.
@@ -656,10 +666,11 @@ Proof.
   - cbn in H. inversion H.
   - cbn in H. cbn [eval_body]. now apply IH.
   - cbn in H. inversion H.
+  - cbn in H. inversion H.
 Qed.
 
-Lemma handle_body_single : forall F e, handle_body F [SReturn e] = conv F e.
-Proof. reflexivity. Qed.
+Lemma handle_body_single : forall F e, f_body F = BodyAllLast -> handle_body F [SReturn e] = conv F e.
+Proof. intros F e H. unfold handle_body. rewrite H. reflexivity. Qed.
 
 Theorem tree_to_sbml_sound : forall F, facts_good F = true ->
   forall ufn rho fd args e m v,
@@ -672,9 +683,81 @@ Proof.
   unfold tree_to_sbml in Hc. unfold eval_fn in Hv. unfold single_return in Hs.
   destruct (Nat.eqb (List.length (fd_params fd)) (List.length args)); [|discriminate].
   unfold rename_body in Hc. rewrite (g_rename F (facts_good_Good F HF)) in Hc.
-  rewrite Hs in Hc. cbn [map rename_stmt] in Hc. rewrite handle_body_single in Hc.
+  rewrite Hs in Hc. cbn [map rename_stmt] in Hc. rewrite (handle_body_single F _ (g_body F (facts_good_Good F HF))) in Hc.
   rewrite (eval_body_single _ _ _ _ Hs) in Hv.
   eapply (conv_sound F (facts_good_Good F HF)); eauto using rename_sound.
+Qed.
+
+(* ------------------------------------------------------------------------------------- *)
+(** * function bodies with ANY statements: a body the exporter accepts consists of `return <expr>` statements only *)
+Lemma conv_stmt_ok_return : forall F mp s m, conv_stmt F (rename_stmt mp s) = Ok m -> exists e, s = SReturn e.
+Proof. intros F mp [e| | |x e|] m H; cbn in H; try discriminate; eauto. Qed.
+
+Lemma fold_step_err : forall F ss e, fold_left (body_step F) ss (Err e) = Err e.
+Proof. induction ss as [|s r IH]; intros e; [reflexivity|]. cbn [fold_left body_step]. apply IH. Qed.
+
+Lemma fold_step_returns : forall F mp body m0 m,
+  fold_left (body_step F) (map (rename_stmt mp) body) (Ok m0) = Ok m ->
+  Forall (fun s => exists e, s = SReturn e) body.
+Proof.
+  induction body as [|s r IH]; intros m0 m H; [constructor|].
+  cbn [map fold_left body_step] in H.
+  destruct (conv_stmt F (rename_stmt mp s)) as [m1|er] eqn:Es.
+  - constructor; [eapply conv_stmt_ok_return; eauto|]. eapply IH; eauto.
+  - rewrite fold_step_err in H. discriminate.
+Qed.
+
+Lemma tree_ok_returns : forall F, facts_good F = true -> forall fd args m,
+  tree_to_sbml F fd args = Ok m ->
+  Forall (fun s => exists e, s = SReturn e) (filter (fun s => negb (is_doc s)) (fd_body fd)).
+Proof.
+  intros F HF fd args m Hc. pose proof (facts_good_Good F HF) as G.
+  unfold tree_to_sbml in Hc. destruct (Nat.eqb _ _); [|discriminate].
+  unfold rename_body in Hc. rewrite (g_rename F G) in Hc. unfold handle_body in Hc. rewrite (g_body F G) in Hc.
+  eapply fold_step_returns; eauto.
+Qed.
+
+Lemma eval_body_filter : forall ufn body env,
+  eval_body ufn env body = eval_body ufn env (filter (fun s => negb (is_doc s)) body).
+Proof.
+  induction body as [|s r IH]; intros env; [reflexivity|].
+  destruct s; cbn [filter is_doc negb eval_body].
+  - reflexivity.
+  - reflexivity.
+  - apply IH.
+  - destruct (eval_py ufn env e); [apply IH|reflexivity].
+  - reflexivity.
+Qed.
+
+(** the exporter accepts a body => (no unreachable statements =>) it is a single `return <expr>`: the exported MathML
+    means the function.  Holds for EVERY body: assignments (rebinding a parameter or introducing a local), other
+    statements, bare returns, docstrings *)
+Theorem tree_to_sbml_sound_body : forall F, facts_good F = true ->
+  forall ufn rho fd args m v,
+    no_dead_code (filter (fun s => negb (is_doc s)) (fd_body fd)) = true ->
+    tree_to_sbml F fd args = Ok m ->
+    eval_fn ufn rho fd args = Some v ->
+    eval_ml ufn rho m = Some v.
+Proof.
+  intros F HF ufn rho fd args m v Hnd Hc Hv.
+  pose proof (tree_ok_returns F HF fd args m Hc) as Hall.
+  destruct (filter (fun s => negb (is_doc s)) (fd_body fd)) as [|s [|s2 r]] eqn:Ef.
+  - unfold eval_fn in Hv. destruct (Nat.eqb _ _); [|discriminate].
+    rewrite eval_body_filter, Ef in Hv. discriminate.
+  - inversion Hall as [|? ? [e He] _]. subst s.
+    eapply (tree_to_sbml_sound F HF ufn rho fd args e); eauto.
+  - inversion Hall as [|? ? [e He] _]. subst s. discriminate Hnd.
+Qed.
+
+(** a body with a statement that is not `return <expr>` (an assignment, a bare return, any other statement) is refused *)
+Theorem non_return_refused : forall F, facts_good F = true -> forall fd args s,
+  In s (filter (fun s => negb (is_doc s)) (fd_body fd)) -> is_return_expr s = false ->
+  exists er, tree_to_sbml F fd args = Err er.
+Proof.
+  intros F HF fd args s Hin Hs.
+  destruct (tree_to_sbml F fd args) as [m|er] eqn:Hc; [|eauto]. exfalso.
+  pose proof (tree_ok_returns F HF fd args m Hc) as Hall. rewrite Forall_forall in Hall.
+  destruct (Hall s Hin) as [e He]. subst s. discriminate Hs.
 Qed.
 
 (* ------------------------------------------------------------------------------------- *)
@@ -852,6 +935,19 @@ Proof.
   - destruct Hs as [Ha Hr]. cbn [rename_seq]. rewrite (IH Hr). apply (proj1 (rename_step_all p a r Ha)).
 Qed.
 
+Lemma rename_name_step : forall p a r x, ~ In a (map fst r) ->
+  rename_name r (rename_name [(p, a)] x) = rename_name ((p, a) :: r) x.
+Proof.
+  intros p a r x Ha. unfold rename_name. cbn [assocN].
+  destruct (N.eqb x p); [now rewrite (assocN_none a r Ha)|reflexivity].
+Qed.
+
+Lemma rename_name_seq_simultaneous : forall mp, seq_safe mp -> forall x, rename_name_seq mp x = rename_name mp x.
+Proof.
+  induction mp as [|[p a] r IH]; intros Hs x; [reflexivity|].
+  destruct Hs as [Ha Hr]. cbn [rename_name_seq]. rewrite (IH Hr). now apply rename_name_step.
+Qed.
+
 Theorem tree_to_sbml_sequential_safe : forall F fd args,
   seq_safe (combine (fd_params fd) args) ->
   tree_to_sbml (set_rename RenSequential F) fd args = tree_to_sbml (set_rename RenSimultaneous F) fd args.
@@ -860,6 +956,8 @@ Proof.
   destruct (Nat.eqb _ _); [|reflexivity].
   assert (Hm : forall body, map (rename_stmt_seq (combine (fd_params fd) args)) body = map (rename_stmt (combine (fd_params fd) args)) body).
   { induction body as [|s r IH]; [reflexivity|]. cbn [map]. rewrite IH. f_equal.
-    destruct s; cbn [rename_stmt_seq rename_stmt]; try reflexivity. now rewrite rename_seq_simultaneous. }
+    destruct s; cbn [rename_stmt_seq rename_stmt]; try reflexivity.
+    - now rewrite rename_seq_simultaneous.
+    - now rewrite rename_seq_simultaneous, rename_name_seq_simultaneous. }
   rewrite Hm. reflexivity.
 Qed.
